@@ -92,6 +92,12 @@ func encodeFunction(w *World, fn *ssa.Function, dropped map[string]bool) (e *Enc
 			e.assumeFact(env.trClause(cl))
 		}
 	}
+	if ct != nil {
+		env := e.contractEnv(fr, ct, nil, st, st)
+		for _, cl := range ct.Splits {
+			e.splits = append(e.splits, env.trClause(cl))
+		}
+	}
 	rv, stOut, reach := e.run(fr, args, c.True(), st.clone())
 	if ct != nil && len(fr.rets) > 0 {
 		e.guard = reach
@@ -99,6 +105,10 @@ func encodeFunction(w *World, fn *ssa.Function, dropped map[string]bool) (e *Enc
 		env := e.contractEnv(fr, ct, nil, stOut, st)
 		env.result = rv
 		for i, cl := range ct.Ensures {
+			if cl.Slow && !thoroughTier {
+				skippedSlow++
+				continue
+			}
 			t := env.trClause(cl)
 			tag := cl.Tag
 			if tag == "" {
@@ -351,6 +361,59 @@ func solveAll(e *Encoder, obls []*Obligation, timeout time.Duration, all bool) [
 			or.Status = "trivial"
 			continue
 		}
+		if len(e.splits) > 0 && o.Kind != "cand" && len(e.splits) <= 4 {
+			// case analysis: the obligation holds iff it holds in every case
+			wg.Add(1)
+			go func(or *OblResult) {
+				defer wg.Done()
+				n := 1 << uint(len(e.splits))
+				res := make([]SolveResult, n)
+				var wg2 sync.WaitGroup
+				for m := 0; m < n; m++ {
+					wg2.Add(1)
+					go func(m int) {
+						defer wg2.Done()
+						var extra []*Term
+						for k, sp := range e.splits {
+							if m&(1<<uint(k)) != 0 {
+								extra = append(extra, sp)
+							} else {
+								extra = append(extra, e.c.Not(sp))
+							}
+						}
+						as := append([]*Term{}, e.assumptions[:or.O.NAssume]...)
+						as = append(as, or.O.Extra...)
+						as = append(as, extra...)
+						as = append(as, or.O.Guard, e.c.Not(or.O.Goal))
+						res[m] = Solve(fmt.Sprintf("%s_case%d", or.O.ID, m), e.c.Script(as, nil, ""), timeout, all)
+					}(m)
+				}
+				wg2.Wait()
+				or.Status = "discharged"
+				for _, r := range res {
+					or.Res.Ms += r.Ms
+					if or.Res.Backend == "" {
+						or.Res.Backend = r.Backend
+					}
+					switch r.Status {
+					case "unsat":
+					case "sat":
+						or.Status = "refuted"
+						or.Res = r
+						return
+					default:
+						or.Status = "undecided"
+						or.Res.Status = r.Status
+						or.Res.Output = r.Output
+						or.Res.All = r.All
+					}
+				}
+				if or.Status == "discharged" {
+					or.Res.Status = "unsat"
+				}
+			}(or)
+			continue
+		}
 		script := e.query(o, nil)
 		rscript, haveRel := e.relevantQuery(o)
 		wg.Add(1)
@@ -520,3 +583,6 @@ func (e *Encoder) knownDynType(v *SVal) {
 		}
 	}
 }
+
+var thoroughTier = false
+var skippedSlow = 0
